@@ -33,10 +33,16 @@ pub fn drive(cfg: &Cfg, schedule: &Schedule, n_in: usize) -> Result<StreamOut, S
     drive_prefixed(cfg, &[], schedule, n_in)
 }
 
+thread_local! {
+    /// extra (input, output) frames handed to every plain call of the streams driven on this thread
+    static GENEROUS: std::cell::Cell<(usize, usize)> = const { std::cell::Cell::new((0, 0)) };
+}
+
 /// As `drive`, after the operations of `prefix` (processing calls contribute to the stream).
 pub fn drive_prefixed(cfg: &Cfg, prefix: &[Op], schedule: &Schedule, n_in: usize) -> Result<StreamOut, String> {
     let mut r = Runner::<f64>::new(cfg, Signal::Noise)?;
     r.keep_out = true;
+    r.generous = GENEROUS.with(|g| g.get());
     let mut so = StreamOut {
         out: Vec::new(),
         consumed: 0,
@@ -273,6 +279,21 @@ fn c05_compare(acc: &mut C05Acc, cfg: &Cfg, sched: &Schedule, reference: &[f64],
 }
 
 #[allow(clippy::too_many_arguments)]
+/// The same comparison with every plain call handed `extra` frames more input (the frames that
+/// follow in the signal) and output room than it needs.
+fn c05_compare_generous(acc: &mut C05Acc, cfg: &Cfg, extra: (usize, usize), reference: &[f64], tol: f64, n_in: usize, journal: Option<&JournalFile>) -> Result<(), String> {
+    GENEROUS.with(|g| g.set(extra));
+    let before = acc.found.len();
+    let r = c05_compare_p(acc, cfg, &[], &vec![], reference, tol, n_in, journal);
+    GENEROUS.with(|g| g.set((0, 0)));
+    for f in acc.found.iter_mut().skip(before) {
+        f["sig"] = json!("generous-buffers-change-output");
+        f["point"] = json!(format!("generous {} {}", extra.0, extra.1));
+        f["detail"] = json!(format!("every call handed {} input and {} output frames more than needed: {}", extra.0, extra.1, f["detail"].as_str().unwrap_or("")));
+    }
+    r
+}
+
 fn c05_compare_p(acc: &mut C05Acc, cfg: &Cfg, prefix: &[Op], sched: &Schedule, reference: &[f64], tol: f64, n_in: usize, journal: Option<&JournalFile>) -> Result<(), String> {
     if let Some(j) = journal {
         j.write(&cfg.to_json(), &format!("prefix {} schedule {:?}", history_text(prefix), sched));
@@ -350,6 +371,7 @@ impl Check for C05 {
                 for kind in [Kind::SI, Kind::SO] {
                     for chunk in chunk_list(l) {
                         c05_compare(&mut acc, &mk(kind, chunk), &vec![], &reference.out, tol, n_in, journal)?;
+                        c05_compare_generous(&mut acc, &mk(kind, chunk), (2 * chunk + 3, 3 * chunk + 5), &reference.out, tol, n_in, journal)?;
                     }
                     let max = 64;
                     for s in schedules(tier, l, max) {
@@ -448,6 +470,7 @@ impl Check for C05 {
                 }
                 for kind in [Kind::FI, Kind::FO] {
                     for chunk in chunk_list(8) {
+                        c05_compare_generous(&mut acc, &Cfg::fast(kind, ratio, 1.0, chunk, degree), (2 * chunk + 3, 3 * chunk + 5), &reference.out, tol, n_in, journal)?;
                         c05_compare(&mut acc, &Cfg::fast(kind, ratio, 1.0, chunk, degree), &vec![], &reference.out, tol, n_in, journal)?;
                     }
                     if degree != Degree::Nearest {
@@ -489,6 +512,13 @@ impl Check for C05 {
                     for c in g {
                         // same FFT block: bit-identical
                         c05_compare(&mut acc, c, &vec![], &reference.out, 0.0, n, journal)?;
+                        // ... also when the caller's slices are longer than the call needs, by less
+                        // than a block, by whole blocks, on either side or both
+                        if c.chunk % 7 == 0 || c.chunk == key.0 || c.chunk == key.1 || c.chunk == 2 * key.0 {
+                            for extra in [(2 * key.0 + 1, 0), (0, 2 * key.1 + 1), (2 * key.0, 2 * key.1), (key.0 - 1, 3 * key.1 + 2)] {
+                                c05_compare_generous(&mut acc, c, extra, &reference.out, 0.0, n, journal)?;
+                            }
+                        }
                     }
                 }
             }
@@ -710,6 +740,17 @@ fn c07_items(tier: Tier) -> Vec<C07Item> {
         // an FFT block of more than 10^5 frames (coprime rates): one fixed-output configuration,
         // followed for 400 calls (the block is produced once and drained over 127 calls)
         items.push(C07Item { cfgs: vec![(Cfg::fft(Kind::XO, 131072, 131071, 1024, 1), vec![])], horizon: Some(400) });
+    }
+    // rates in the MHz range (DSD-derived: 2 822 400 and 3 072 000 Hz, gcd 19 200) with chunks of
+    // hundreds of thousands of frames: blocks x rate exceeds 2^32
+    {
+        let mut cfgs = Vec::new();
+        for (a, b) in [(2_822_400usize, 3_072_000usize), (3_072_000, 2_822_400)] {
+            cfgs.push((Cfg::fft(Kind::XI, a, b, 300_000, 1), vec![]));
+            cfgs.push((Cfg::fft(Kind::XO, a, b, 300_000, 2), vec![]));
+            cfgs.push((Cfg::fft(Kind::XX, a, b, 300_000, 1), vec![]));
+        }
+        items.push(C07Item { cfgs, horizon: Some(12) });
     }
     for (a, b) in pairs {
         let mut cfgs = Vec::new();
